@@ -1,8 +1,185 @@
-//! Seeded multi-thread stress (child side). Placeholder until the schedule suite passes.
-use crate::sched::Out;
+//! Seeded multi-thread stress (child side): two ingesters, one flush loop, three queriers, with seeded
+//! perturbation at the sync points.  Every query result is judged by the prefix oracle; the complete sync-point
+//! log must be a path of the model and reproduce every snapshot.
+//!
+//!   (stress <fresh|restart> <combine factor> <absent-column queries 0|1> <queries per querier> <seed>)
+use crate::dbenv::*;
+use crate::judge::*;
+use crate::sched::{final_layout, install_noter, DbSlot, Out, Verdict, OP_DEADLINE};
+use crate::sync::{Controller, Role};
+use lvharness::rng::Rng;
 use lvharness::sx::Sx;
+use std::collections::HashSet;
 use std::path::Path;
+use std::sync::atomic::{AtomicBool, AtomicUsize, Ordering};
+use std::sync::{Arc, Mutex};
+use std::time::{Duration, Instant};
 
-pub fn run(_case: &Sx, _dir: &Path) -> Vec<Out> {
-    vec![]
+pub fn run(case: &Sx, dir: &Path) -> Vec<Out> {
+    let it = case.items();
+    let variant = it[1].atom().to_string();
+    let combine = it[2].as_u64();
+    let lack = it[3].atom() == "1";
+    let per_querier = it[4].as_usize();
+    let seed = it[5].as_u64();
+    let context = format!("stress|{}|combine={}|{}", variant, combine, if lack { "abscol" } else { "plain" });
+
+    install_panic_hook();
+    let ctl = Controller::new();
+    ctl.install();
+    let slot: DbSlot = Arc::new(Mutex::new(None));
+    install_noter(&ctl, &slot);
+    let mut v = Verdict::new();
+    let next_batch = Arc::new(AtomicUsize::new(0));
+    let mut setup_ok = true;
+    let mut must = |v: &mut Verdict, mut h: OpHandle| -> bool {
+        h.wait(OP_DEADLINE);
+        v.op(&h);
+        matches!(h.result, Some(OpRes::Done))
+    };
+    let env;
+    if variant == "restart" {
+        let e0 = Env::open(ctl.clone(), dir, NEVER_COMPACT);
+        *slot.lock().unwrap() = Some(e0.db.clone());
+        for _ in 0..3 {
+            setup_ok &= must(&mut v, e0.ingest(0, next_batch.fetch_add(1, Ordering::SeqCst)));
+            setup_ok &= must(&mut v, e0.flush());
+        }
+        *slot.lock().unwrap() = None;
+        drop(e0);
+        std::thread::sleep(Duration::from_millis(30));
+        env = Env::open(ctl.clone(), dir, combine);
+    } else {
+        env = Env::open(ctl.clone(), dir, combine);
+    }
+    *slot.lock().unwrap() = Some(env.db.clone());
+    setup_ok &= must(&mut v, env.ingest(0, next_batch.fetch_add(1, Ordering::SeqCst)));
+    if !setup_ok {
+        let (sig, msg) = v.finish(&context).unwrap_or(("setup-failed".into(), "setup failed".into()));
+        return vec![Out { model: None, model_input: None, impl_out: None, oracle: Some(format!("setup: {}", msg)), signature: Some(format!("setup:{}", sig)), nontrivial: false }];
+    }
+
+    ctl.jitter.store(seed | 1, Ordering::Relaxed);
+    let stop = Arc::new(AtomicBool::new(false));
+    let results: Arc<Mutex<Vec<((usize, usize), QKind, QRes)>>> = Arc::new(Mutex::new(vec![]));
+    let mut handles = vec![];
+    let mut rng = Rng::new(seed);
+    // ingesters
+    for n in 0..2usize {
+        let (ctl2, rt, db, stop2, nb) = (ctl.clone(), env.rt.clone(), env.db.clone(), stop.clone(), next_batch.clone());
+        let mut r = rng.fork(n as u64 + 1);
+        handles.push(env.spawn(&format!("ingester{}", n), Role::Ingester(n), move || {
+            while !stop2.load(Ordering::SeqCst) {
+                let j = nb.fetch_add(1, Ordering::SeqCst);
+                if j > 900 {
+                    break;
+                }
+                ctl2.note(Role::Ingester(n), "h:istart", Some(j.to_string()));
+                rt.block_on(db.ingest_efficient(event_for_batch(j)));
+                ctl2.note(Role::Ingester(n), "h:ack", Some(j.to_string()));
+                std::thread::sleep(Duration::from_micros(200 + r.below(3000)));
+            }
+            OpRes::Done
+        }));
+    }
+    // the flush loop
+    {
+        let (ctl2, db, stop2) = (ctl.clone(), env.db.clone(), stop.clone());
+        let mut r = rng.fork(77);
+        handles.push(env.spawn("flush-loop", Role::None, move || {
+            while !stop2.load(Ordering::SeqCst) {
+                ctl2.note(Role::None, "h:flush_start", None);
+                db.force_flush();
+                ctl2.note(Role::None, "h:flush_done", None);
+                std::thread::sleep(Duration::from_micros(500 + r.below(8000)));
+            }
+            OpRes::Done
+        }));
+    }
+    // queriers
+    let mut qhandles = vec![];
+    for n in 0..3usize {
+        let (ctl2, rt, db, res) = (ctl.clone(), env.rt.clone(), env.db.clone(), results.clone());
+        let mut r = rng.fork(100 + n as u64);
+        qhandles.push(env.spawn(&format!("querier{}", n), Role::Querier(n), move || {
+            for inst in 0..per_querier {
+                let kind = if lack && r.chance(1, 3) {
+                    if r.chance(1, 2) { QKind::Lack } else { QKind::Nosuch }
+                } else {
+                    *r.pick(&[QKind::All, QKind::All, QKind::Count, QKind::Sorted])
+                };
+                ctl2.note(Role::Querier(n), "h:qstart", Some(format!("{} {}", inst, kind.name())));
+                let q = run_query(&rt, &db, kind, Duration::from_secs(8));
+                ctl2.note(Role::Querier(n), "h:qdone", Some(inst.to_string()));
+                let bad = matches!(q, QRes::Hang | QRes::Panic(_));
+                res.lock().unwrap().push(((n, inst), kind, q));
+                if bad {
+                    break;
+                }
+                std::thread::sleep(Duration::from_micros(r.below(1500)));
+            }
+            OpRes::Done
+        }));
+    }
+    let t0 = Instant::now();
+    let budget = Duration::from_secs(40);
+    for h in qhandles.iter_mut() {
+        let left = budget.checked_sub(t0.elapsed()).unwrap_or(Duration::from_millis(1));
+        h.wait(left);
+    }
+    stop.store(true, Ordering::SeqCst);
+    for h in handles.iter_mut() {
+        h.wait(OP_DEADLINE);
+    }
+    ctl.jitter.store(0, Ordering::Relaxed);
+    let fin_res = run_query_as(&env, &ctl, 9, 0, QKind::All);
+
+    // ---- verdict ----
+    let log = ctl.snapshot_log();
+    let ix = index_log(&log);
+    for h in qhandles.iter().chain(handles.iter()) {
+        v.op(h);
+    }
+    let mut all_results = results.lock().unwrap().clone();
+    all_results.push(((9, 0), QKind::All, fin_res));
+    for (key, kind, r) in &all_results {
+        if let Some((what, msg)) = prefix_oracle(&ix, *key, *kind, r) {
+            v.failed_queries.insert(*key);
+            let sig = if what.starts_with("query-") { what } else { format!("mismatch:{}", what) };
+            v.failures.push(crate::sched::Failure { sig, msg: format!("query {:?} [{}]: {}", key, kind.sql(), msg) });
+        }
+    }
+    if let Some((sig, msg)) = v.finish(&context) {
+        let msg: String = msg.chars().take(1500).collect();
+        return vec![Out { model: None, model_input: None, impl_out: None, oracle: Some(msg), signature: Some(sig), nontrivial: true }];
+    }
+    let (ni, nq, evs, completed) = model_events(&log, &HashSet::new());
+    let mut out_results = vec![];
+    for key in &completed {
+        let r = match all_results.iter().find(|r| r.0 == *key).map(|r| &r.2) {
+            Some(QRes::Rows(rows)) => {
+                let mut ids: Vec<i64> = rows.iter().map(|r| r.0).collect();
+                ids.sort();
+                Sx::list(&ids, |x| Sx::int(x))
+            }
+            Some(QRes::Count(c)) => Sx::int(c),
+            _ => Sx::a("?"),
+        };
+        out_results.push(Sx::l(vec![Sx::int(key.0), r]));
+    }
+    let layout = final_layout(&env.db).unwrap_or(Sx::a("no-layout"));
+    let impl_out = Sx::l(vec![Sx::a("ok"), Sx::l(out_results), layout]);
+    let input = Sx::l(vec![Sx::int(ni.max(1)), Sx::int(nq.max(1)), Sx::l(evs)]);
+    vec![Out { model: Some("conc_replay".into()), model_input: Some(input), impl_out: Some(impl_out), oracle: None, signature: None, nontrivial: true }]
+}
+
+fn run_query_as(env: &Env, ctl: &Arc<Controller>, n: usize, inst: usize, kind: QKind) -> QRes {
+    let mut h = env.query(n, inst, kind, OP_DEADLINE);
+    let _ = ctl;
+    match h.wait(OP_DEADLINE) {
+        OpRes::Query(q) => q.clone(),
+        OpRes::Hang => QRes::Hang,
+        OpRes::Panic(m) => QRes::Panic(m.clone()),
+        OpRes::Done => QRes::Malformed("no result".into()),
+    }
 }
